@@ -595,6 +595,39 @@ func main() {
 			}
 		},
 		"legacy": func(r *vh.Run) { legacyStream(r, r.Pick(8, 300), 12) },
+		"get-lifecycle-held": func(r *vh.Run) {
+			for _, pt := range []string{"sse.write.afterid", "sse.write.beforeterm"} {
+				for _, w := range []int{2, 4, 8} {
+					getLifecycleHeld(r, r.Pick(2, 20), r.Pick(3, 6), w, pt)
+				}
+			}
+		},
+		"get-lifecycle-free": func(r *vh.Run) {
+			for _, mode := range []string{"supersede", "drop", "mixed"} {
+				for _, w := range []int{2, 4, 8} {
+					for rep := 0; rep < r.Pick(2, 12); rep++ {
+						getLifecycleFree(r, w, r.Pick(1600, 6000)/w, mode)
+					}
+				}
+			}
+		},
+		"get-broadcast": func(r *vh.Run) {
+			for _, pt := range []string{"sse.write.afterid", "sse.write.beforeterm", ""} {
+				each := r.Pick(4, 12)
+				if pt == "" {
+					each = r.Pick(150, 1500)
+				}
+				broadcastStreams(r, 4, 2, each, pt)
+				broadcastStreams(r, 8, 4, each, pt)
+			}
+		},
+		"post-unjoined": func(r *vh.Run) {
+			for _, pt := range []string{"sse.write.afterid", "sse.write.beforeterm", ""} {
+				for _, s := range []int{2, 4, 8} {
+					postUnjoined(r, r.Pick(6, 100), s, pt)
+				}
+			}
+		},
 		"client-stdin": func(r *vh.Run) {
 			r.Sample(map[string]interface{}{"scenario": "client-stdin", "runs": []interface{}{
 				clientStdin(r, 4, r.Pick(800, 5000), 1<<30),
@@ -614,7 +647,7 @@ func main() {
 		cr.ExportAndExit()
 	}
 	r := vh.NewRun("C09", "exploration")
-	names := []string{"client-stdin", "client-http", "stdio-held", "stdio-free", "get", "post", "legacy"}
+	names := []string{"client-stdin", "client-http", "stdio-held", "stdio-free", "get", "post", "legacy", "get-lifecycle-held", "get-lifecycle-free", "get-broadcast", "post-unjoined"}
 	var wg sync.WaitGroup
 	results := make([]*vh.ChildResult, len(names))
 	for i, name := range names {
@@ -646,7 +679,7 @@ func main() {
 	}
 	var keys []string
 	sort.Strings(keys)
-	r.Finish("streams: stdio server stdout (responses from per-request goroutines + server-issued roots/list requests), Streamable GET stream (notifications + server requests from 2-8 goroutines), POST SSE stream (notifications from 2-4 goroutines inside one handler, then the result), legacy SSE stream (responses, notifications, 2 ms keep-alive comments), and the CLIENT-to-server direction against scripted servers written without the library: stdio client stdin (4 and 8 application goroutines sending tools/call, list/get/read requests and bursts of roots/list_changed notifications while the scripted server floods the client with tens of thousands of server-issued requests of 9 kinds - roots/list with and without params, sampling/createMessage small and 8 KiB, elicitation/create, ping, unknown method, a client-to-server method in the wrong direction, a method name with line breaks; numeric and string ids - so that the read loop writes result and method-not-found answers concurrently with the application goroutines; the child records its stdin split at LF only), Streamable and legacy SSE clients (same workload; frame = POST body; server-issued requests arrive on the GET / event stream). For the client direction the multiset is: initialize and initialized once, every application request once (by nonce), as many roots/list_changed as sends that returned nil, exactly one answer per server-issued id and no answer with another id. Writers are parked by the yield controller between payload and newline (stdio.write.mid) and between the lines of one event (sse.write.afterid / sse.write.beforeterm) and released in seeded permutations, plus free-running stress. Payloads contain CR, LF, CRLF, U+2028/2029, SSE field names, and sizes around 4096 and 65536. A strict LF splitter / WHATWG SSE reader must recover exactly the multiset of nonce-carrying messages written, each frame one JSON value. Distinct = (stream scenario, writer count).",
-		[]string{"with the write locks in place only one writer can be parked inside a frame; the evidence gauges writers_parked_* report how many were simultaneously inside", "stdout is an in-memory writer whose Write calls are atomic (like write(2) below PIPE_BUF); the client-stdin scenario uses a real pipe",
+	r.Finish("streams: stdio server stdout (responses from per-request goroutines + server-issued roots/list requests), Streamable GET stream (notifications + server requests from 2-8 goroutines), POST SSE stream (notifications from 2-4 goroutines inside one handler, then the result), legacy SSE stream (responses, notifications, 2 ms keep-alive comments), and the CLIENT-to-server direction against scripted servers written without the library: stdio client stdin (4 and 8 application goroutines sending tools/call, list/get/read requests and bursts of roots/list_changed notifications while the scripted server floods the client with tens of thousands of server-issued requests of 9 kinds - roots/list with and without params, sampling/createMessage small and 8 KiB, elicitation/create, ping, unknown method, a client-to-server method in the wrong direction, a method name with line breaks; numeric and string ids - so that the read loop writes result and method-not-found answers concurrently with the application goroutines; the child records its stdin split at LF only), Streamable and legacy SSE clients (same workload; frame = POST body; server-issued requests arrive on the GET / event stream). For the client direction the multiset is: initialize and initialized once, every application request once (by nonce), as many roots/list_changed as sends that returned nil, exactly one answer per server-issued id and no answer with another id. Writers are parked by the yield controller between payload and newline (stdio.write.mid) and between the lines of one event (sse.write.afterid / sse.write.beforeterm) and released in seeded permutations, plus free-running stress. Payloads contain CR, LF, CRLF, U+2028/2029, SSE field names, and sizes around 4096 and 65536. A strict LF splitter / WHATWG SSE reader must recover exactly the multiset of nonce-carrying messages written, each frame one JSON value. Life cycle of a Streamable stream (writers.go): per session the listening stream is opened, reopened with Last-Event-ID (superseding the old stream or after the client dropped it; the server writes its stream/resumed notice) and ended by DELETE while 2-8 senders send notifications and server requests to the session - held variant: the life-cycle action and the senders in three seeded orders with the writers parked between the lines of their event and released one at a time once the number parked is stable; free variant: a reconnect loop (open, receive 1-30 events, reopen with the last id) under constant sending with random delays at the yield points and registrations running on the server. Broadcasts: 2-4 goroutines broadcasting to 4-8 sessions next to per-session senders, half of the sessions DELETEd meanwhile; a broadcast's copies over all sessions must equal the count the API returned. POST-SSE unjoined: the handler starts 2-8 goroutines that send in-call notifications and returns while some of them are still sending; the stream must hold the final answer once and every notification whose send returned nil, each in an event of its own. For these scenarios the multiset is taken over all streams of a session: a send that reported success must be recovered exactly once, a refused send never, a send that failed inside the write 0 or 1 times; a message may be missing only if it can have been written to a stream the client cut, after everything that arrived on that stream. Distinct = (stream scenario, writer count) and, for the held life cycle, (action, order, writer count).",
+		[]string{"life-cycle scenarios: this library version writes no keep-alive comments on Streamable streams and announces no list_changed on registration (the counters get_stream_comments and server_own_messages|*list_changed show what was seen; such lines would be judged for framing only); the stream/resumed notice is not promised by the statement, so its count is reported and not judged; a server request sent with an already cancelled context counts as written only because a probe at start saw such a request arrive", "with the write locks in place only one writer can be parked inside a frame; the evidence gauges writers_parked_* report how many were simultaneously inside", "stdout is an in-memory writer whose Write calls are atomic (like write(2) below PIPE_BUF); the client-stdin scenario uses a real pipe",
 			"client direction: there is no yield point between the writes of one client frame, so interleavings inside a client frame are explored by volume only (free-running stress, window one syscall wide); an API call that reports a send failure leaves open whether its message was written (0 or 1 copies accepted); an empty stdin line carries no message and is skipped (counted in cli_empty_lines); when the scripted server's 20 s no-progress watchdog ends the wait for answers, missing answers are inconclusive"})
 }
